@@ -38,6 +38,14 @@ def specs(tier):
         (big, [('D1', .6), ('O1', .4)]),
         (uni, [('A3', .6), ('O1', .4)]),
     ]
+    # word list and mask list with the SAME two probabilities: word i / mask j+1 and word i+1 / mask j tie in exact arithmetic while their float
+    # products (base x word x mask, multiplied left to right) may differ in the last bit - the shared-child tie-break has to cope with both
+    for pw in (.6, .7, .55, .9):
+        for b in (.625, .3):
+            near = dict(t0)
+            near['A'] = {1: [('a', pw), ('b', 1 - pw)]}
+            near['C'] = {1: [('L', pw), ('U', 1 - pw)]}
+            cands.append((near, [('A1', b), ('D1', 1 - b)]))
     if tier == 'thorough':
         cands += [(big, [('A1', .3), ('A3', .3), ('D1', .2), ('D2', .1), ('K4', .1)]), (t1, [('A1', .5), ('A2', .25), ('D1', .125), ('O1', .125)])]
     out = []
